@@ -54,7 +54,10 @@ def truncated(kind, blocked, bounds, tsplit=None):
             assume(t >= lo)
             if hi is not None:
                 assume(t < hi)
-        rp = {'kind': 'truncate', 'args': {'kind': kind, 'blocked': blocked, 'lengths': [ev(n) for n in ns], 't': ev(t)}}
+        def rp():
+            a = {'kind': kind, 'blocked': blocked, 'lengths': [ev(n) for n in ns], 't': ev(t)}
+            a['items'] = [concretize(r, ev) for r in recs] if kind == 'vbs' else [concretize(v, ev) for v in vals]
+            return {'kind': 'truncate', 'args': a}
         cut = sl(data, 0, t)
         # surviving payload bytes
         if blocked:
@@ -90,7 +93,7 @@ def truncated(kind, blocked, bounds, tsplit=None):
                 req_eq(got[i].get('DE2'), vals[i], 'record %d altered' % (i + 1), key='C09/altered', replay=rp)
         if c < len(ns):
             require(s_not(ends[c] <= surv), 'complete record %d was not delivered' % (c + 1), key='C09/lost', replay=rp)
-        return {'sample': {'lengths': [ev(n) for n in ns], 't': ev(t), 'size': ev(size), 'delivered': c, 'end': end}, 'replay': rp}
+        return {'sample': {'lengths': [ev(n) for n in ns], 't': ev(t), 'size': ev(size), 'delivered': c, 'end': end}, 'replay': rp()}
     return h
 
 
